@@ -324,6 +324,26 @@ def audit_assumptions(prop):
     return names, status, out
 
 
+COQCHK_ALLOWED = ("Coq.Floats.", "Coq.Numbers.Cyclic.Int63.")
+
+
+def coqchk(prop, timeout=2400):
+    """Independent re-check of the compiled property file and everything it depends on (thorough tier).
+    Returns (ok, axioms listed by coqchk -o, text)."""
+    rc, out = sh(["timeout", str(timeout), "coqchk", "-o", "-silent"] + QFLAGS + ["NL.Props." + prop], cwd=COQ, timeout=timeout + 60)
+    axioms = []
+    sect = None
+    for line in out.split("\n"):
+        if line.startswith("* "):
+            sect = line
+            if ("type-in-type" in line or "unsafe" in line or "positivity" in line) and "<none>" not in line:
+                return False, axioms, out[-1500:]
+        elif sect and sect.startswith("* Axioms") and line.strip():
+            axioms.append(line.strip())
+    bad = [a for a in axioms if not a.startswith(COQCHK_ALLOWED)]
+    return rc == 0 and not bad, axioms, (("not allowed: %s\n" % bad) if bad else "") + out[-800:]
+
+
 # ------------------------------------------------------------------------------- results
 
 def write_evidence(prop, tier, seed, coverage, assumptions, wall, violations, level="proof"):
